@@ -437,6 +437,7 @@ fn run_parent(args: &[String]) -> i32 {
 
     // merge
     let mut evals = 0u64;
+    let mut enumerated_distinct = 0u64;
     let mut counters: BTreeMap<String, u64> = BTreeMap::new();
     let mut maxima: BTreeMap<String, f64> = BTreeMap::new();
     let mut samples: Vec<Value> = Vec::new();
@@ -447,6 +448,7 @@ fn run_parent(args: &[String]) -> i32 {
     for r in &results {
         let Some(j) = &r.json else { continue };
         evals += j["evals"].as_u64().unwrap_or(0);
+        enumerated_distinct += j["distinct_by_construction"].as_u64().unwrap_or(0);
         if let Some(c) = j["counters"].as_object() {
             for (k, v) in c {
                 *counters.entry(k.clone()).or_insert(0) += v.as_u64().unwrap_or(0);
@@ -512,7 +514,8 @@ fn run_parent(args: &[String]) -> i32 {
 
     let meta = (p.meta)();
     // exact size of the union of the shards' (sorted) hash files, by a streaming k-way merge
-    let distinct = all_hashes.len() as u64 + union_count(&hash_files);
+    let hashed_distinct = all_hashes.len() as u64 + union_count(&hash_files);
+    let distinct = hashed_distinct + enumerated_distinct;
     if distinct < meta.min_distinct && inconclusive.is_empty() {
         inconclusive.push(format!(
             "only {} distinct non-trivial cases were observed (minimum for a verdict: {})",
@@ -592,6 +595,8 @@ fn run_parent(args: &[String]) -> i32 {
             "evaluations": evals,
             "distinct_nontrivial": distinct,
             "rule": meta.rule,
+            "distinct_counted_by_hash": hashed_distinct,
+            "distinct_by_construction_(exhaustive_families)": enumerated_distinct,
             "samples": samples,
             "exhaustive": meta.exhaustive,
             "observed": counters,
